@@ -8,6 +8,7 @@ import (
 	"io"
 	"os"
 	"runtime"
+	"sort"
 	"strconv"
 )
 
@@ -128,7 +129,16 @@ func newZlisp(funcs map[string]ZlispUserFunction, sandboxed bool) *Zlisp {
 	env.AddGlobal("null", SexpNull)
 	env.AddGlobal("nil", SexpNull)
 
-	for key, function := range funcs {
+	// intern the builtin names in sorted order: symbol numbers are
+	// visible to scripts (symnum, ordering of symbols), so they must
+	// not follow Go's randomized map iteration order.
+	names := make([]string, 0, len(funcs))
+	for key := range funcs {
+		names = append(names, key)
+	}
+	sort.Strings(names)
+	for _, key := range names {
+		function := funcs[key]
 		sym := env.MakeSymbol(key)
 		env.builtins[sym.number] = MakeUserFunction(key, function)
 		env.AddFunction(key, function)
